@@ -1890,6 +1890,10 @@ class tensor:
 
             dnew = skip_dim + 1  # Number of modes in result
             drem = d - dnew  # Number of modes multiplied out
+            if any(extent != sz for extent in self.shape):
+                assert False, "ttsv requires all modes to have the same size"
+            if drem > 0 and vector.shape != (sz,):
+                assert False, "Multiplicand is wrong size"
 
             y = self.data.copy()
             for i in range(drem, 0, -1):
